@@ -259,6 +259,10 @@ class Task(Generic[T]):
         # Prime the list of all already-taken names (mostly for help in
         # choosing auto shortflags)
         taken_names = set(sig.parameters.keys())
+        # (...under their command-line spelling as well: a parameter such as
+        # '_a' or 'b_' is given as '-a'/'-b', which must not be handed out as
+        # somebody else's automatic short flag.)
+        taken_names.update(translate_underscores(x) for x in sig.parameters)
         # Build arg list (arg_opts will take care of setting up shortnames,
         # etc)
         args = []
